@@ -5,7 +5,7 @@ use std::net::SocketAddrV4;
 
 use serde_json::json;
 
-use crate::krpc::{Id, Krpc};
+use crate::krpc::{self, Id, Krpc, MsgOpts};
 use crate::props::common::*;
 use crate::props::netkit::*;
 use crate::props::{PropInfo, Property, Report, RunCtx, Tier};
@@ -269,6 +269,54 @@ fn run(ctx: &RunCtx) -> Report {
             report.violate("bind", "bound-node-disturbed-by-second-bind", format!("node {} stopped answering after another node tried to bind its address", sim.node_addr(victim)));
         }
         report.probe("bind_conflict_checks", 1);
+    }
+    // 7. an early bird: a server whose only bootstrap address is not up yet when it starts; meanwhile
+    //    other full nodes ask it (find_node) and then fall silent; once the bootstrap server is up the
+    //    node must join on one of its retries
+    if report.violation.is_none() && !slow_links && rng.chance(1, 2) {
+        let b_ip = if plan.public { pub_ip(&mut rng) } else { priv_ip(45_000) };
+        let x_ip = if plan.public { pub_ip(&mut rng) } else { priv_ip(45_001) };
+        let b_addr = SocketAddrV4::new(b_ip, 6881);
+        let mut xspec = NodeSpec::new(x_ip, 6881).server();
+        xspec.bootstrap = vec![b_addr.to_string()];
+        let x = sim.add_node(xspec);
+        let x_addr = sim.node_addr(x);
+        sim.run_for(rng.range(200, 3000) * MS);
+        // ghosts: full nodes (not read-only, signed-peers capable) that ask once and are never heard of again
+        let n_ghosts = rng.usize(0, 4);
+        for g in 0..n_ghosts {
+            let ga = SocketAddrV4::new(if plan.public { pub_ip(&mut rng) } else { priv_ip(45_100 + g) }, 6881);
+            let (_, _glog) = logging_raw(&sim, ga);
+            let gid = rng.id();
+            let o = MsgOpts { version: Some(krpc::VERSION_RS6.to_vec()), ..MsgOpts::default() };
+            sim.raw_send(ga, x_addr, krpc::query(&krpc::tid_bytes(8800 + g as u32), "find_node", krpc::find_node_args(&gid, &rng.id()), &o));
+            sim.run_for(rng.range(10, 2000) * MS);
+        }
+        sim.run_for(rng.range(1, 30) * SEC);
+        // now the bootstrap server comes up, as a member of the live network
+        let mut bspec = NodeSpec::new(b_ip, 6881).server();
+        bspec.bootstrap = vec![sim.node_addr(net.first).to_string()];
+        let _b = sim.add_node(bspec);
+        sim.run_for(5 * SEC);
+        let deadline = sim.now() + 40 * SEC;
+        let mut joined = false;
+        while sim.now() < deadline && !joined {
+            let o = sim.bootstrapped(x);
+            if !sim.run_ops(&[o], sim.now() + 30 * SEC) {
+                report.violate("hang", "bootstrapped-did-not-return", "bootstrapped() of the early-bird node did not return within 30 s".into());
+                break;
+            }
+            joined = sim.with_op(o, |o| matches!(o.outcome, Some(Outcome::Bool(true))));
+            sim.run_for(2 * SEC);
+        }
+        if !joined && report.violation.is_none() {
+            report.violate("bootstrap", "early-bird-never-joined", format!("a server started {n_ghosts} silent requesters ago, before its bootstrap node, still reports not bootstrapped 45 s after that bootstrap node came up; {what}"));
+        }
+        if let Some(d) = sim.died(x) {
+            report.violate("node-died", "node-actor-panicked", format!("early-bird node died: {d}"));
+        }
+        report.probe("early_bird_joiners", 1);
+        report.probe("early_bird_ghost_requesters", n_ghosts as u64);
     }
     report.nontrivial = all.len() > 1;
     if large {
